@@ -267,7 +267,8 @@ def run_harness(binary, mode, cases=None, seed=1, n=100):
 SAMPLES = ['fir', 'matrixtranspose', 'atax']
 WORKLOADS = [('fir', ['-length=1024']), ('matrixtranspose', ['-width=128']), ('atax', ['-x=64', '-y=64'])]
 GPUSETS_QUICK = [['-gpus=1'], ['-gpus=1,2'], ['-unified-gpus=1,2']]
-GPUSETS_THOROUGH = [['-gpus=2'], ['-gpus=2,1'], ['-unified-gpus=2,1']]
+# the runner sizes the platform by the last ID of the list: GPU lists must be ascending
+GPUSETS_THOROUGH = [['-gpus=2'], ['-unified-gpus=1,2,3,4']]
 
 
 def build_samples():
@@ -303,6 +304,8 @@ def whole_runs(bindir, thorough):
         jobs.append((bindir, 'fir', ['-length=4096', '-gpus=1,2', '-timing'], 300))
         jobs.append((bindir, 'matrixtranspose', ['-width=256', '-gpus=1,2,3,4'], 300))
         jobs.append((bindir, 'atax', ['-x=128', '-y=128', '-unified-gpus=1,2,3,4'], 300))
+        jobs.append((bindir, 'fir', ['-length=4096', '-gpus=1,2,3,4'], 300))
+        jobs.append((bindir, 'atax', ['-x=64', '-y=64', '-gpus=1,2,3,4'], 300))
     with ThreadPoolExecutor(max_workers=6) as ex:
         return list(ex.map(one_run, jobs))
 
@@ -397,6 +400,12 @@ def main(argv):
             dcases += gd
             scases += gs
 
+        # a stored history may stop being protocol-respecting when the code changes
+        # (e.g. it answers a request the engine no longer forwards): judge it as hostile
+        for c in cases:
+            if not c.get('hostile') and not env_ok(c):
+                c['hostile'] = True
+                c['demoted'] = True
         # ---- property monitors on what the implementation did
         bad = [(i, m) for i, m in ((i, monitor(c)) for i, c in enumerate(cases)) if m]
         dbad = [(i, m) for i, m in ((i, monitor_dist(c)) for i, c in enumerate(dcases)) if m]
